@@ -159,9 +159,9 @@ pub fn all_mutations(len: usize, set: MutationSet) -> Vec<Mutation> {
 }
 
 /// Named regions of an image: (name, start, end) sorted by start, covering the image.
-pub type Regions = Vec<(String, usize, usize)>;
+pub type Regions = Vec<(&'static str, usize, usize)>;
 
-pub fn region_of(regions: &Regions, off: usize) -> &str {
+pub fn region_of(regions: &Regions, off: usize) -> &'static str {
     for (name, s, e) in regions {
         if off >= *s && off < *e {
             return name;
